@@ -57,6 +57,9 @@ type c04Exit struct {
 	undecr  int      // echo bodies that did not open under the responder key
 	closes  int
 	replyWith []byte // plaintext put into the reply of every echo (nil = no reply)
+	reqID     uint64
+	initPub   [32]byte
+	respPub   [32]byte
 }
 
 func (x *c04Exit) send(to int, f *protocol.Frame) {
@@ -99,6 +102,7 @@ func (x *c04Exit) handle(from int, b []byte) {
 			x.key = crypto.DeriveSessionKey(shared, open.RequestID, open.EphemeralPubKey, pub, false)
 			x.zeroKey = false
 			ack.EphemeralPubKey = pub
+			x.reqID, x.initPub, x.respPub = open.RequestID, open.EphemeralPubKey, pub
 		}
 		x.send(from, &protocol.Frame{Type: protocol.FrameICMPOpenAck, StreamID: f.StreamID, Payload: ack.Encode()})
 	case protocol.FrameICMPEcho:
@@ -206,10 +210,36 @@ func c04TamperICMP(nt *nsNet) {
 	}
 }
 
+// c04ReplayAck makes the first transit send the ICMP_OPEN_ACK it relayed to the ingress once more
+// (a byte-identical repetition; both endpoints stay honest).
+func c04ReplayAck(nt *nsNet, before int) bool {
+	var ack []byte
+	for _, s := range nt.sentSnapshot()[before:] {
+		if s.From == 1 && s.To == 0 {
+			if f, err := protocol.Decode(s.Bytes); err == nil && f.Type == protocol.FrameICMPOpenAck {
+				ack = s.Bytes
+			}
+		}
+	}
+	if ack == nil {
+		return false
+	}
+	nt.logSent(1, 0, ack)
+	_, err := nt.inject(1, 0, ack)
+	return err == nil
+}
+
 // c04ICMPInspect applies the frame oracle to everything written since `before`.
-func c04ICMPInspect(nt *nsNet, before, last int, key [32]byte, haveKey bool, fail func(clause, what string)) int {
+func c04ICMPInspect(nt *nsNet, before, last int, key [32]byte, haveKey bool, x *c04Exit, fail func(clause, what string)) int {
+	var exitKey, pubKey [32]byte
+	haveExitKey, havePubKey := false, false
+	if x != nil && x.key != nil {
+		exitKey, haveExitKey = x.key.Key(), true
+		pubKey, havePubKey = c04PublicKey(x.reqID, x.initPub, x.respPub)
+	}
 	probe := []byte(c04Marker)[:8]
 	echoFrames := 0
+	nonces := c04Nonces{}
 	for _, s := range nt.sentSnapshot()[before:] {
 		f, err := protocol.Decode(s.Bytes)
 		if err != nil {
@@ -226,6 +256,15 @@ func c04ICMPInspect(nt *nsNet, before, last int, key [32]byte, haveKey bool, fai
 			echoFrames++
 			if !haveKey || !c04Open(key, e.Data) {
 				fail("not-sealed-under-tunnel-key", fmt.Sprintf("ICMP_ECHO body (%d bytes) on n%d->n%d does not open under the session key held by the ingress (ingress holds a key: %v)", len(e.Data), s.From, s.To, haveKey))
+			}
+			if (s.From == 0 || s.From == last) && ((haveKey && !nonces.add(key, e.Data)) || (haveExitKey && exitKey != key && !nonces.add(exitKey, e.Data))) {
+				fail("nonce-reused-under-tunnel-key", fmt.Sprintf("two ICMP_ECHO bodies written by n%d carry the same nonce under one session key", s.From))
+			}
+			if havePubKey && c04Open(pubKey, e.Data) {
+				fail("sealed-under-a-key-the-transit-can-compute", fmt.Sprintf("ICMP_ECHO body (%d bytes) on n%d->n%d opens under the key derived from an all-zero private scalar and the public handshake values: every agent that relayed the handshake can read it", len(e.Data), s.From, s.To))
+			}
+			if x != nil && !e.IsReply && haveExitKey && !c04Open(exitKey, e.Data) {
+				fail("not-sealed-under-the-exits-key", fmt.Sprintf("ICMP_ECHO request body (%d bytes) on n%d->n%d does not open under the session key the exit holds", len(e.Data), s.From, s.To))
 			}
 		}
 	}
@@ -246,6 +285,7 @@ func c04ICMPRun(r *vmc.Result, cs c04ICMPCase) {
 		r.Violate("C04/"+clause+"/"+cs.Kind, fmt.Sprintf("%d transit(s), kind %s, size %d: %s", cs.Transits, cs.Kind, cs.Size, what), cs)
 	}
 	tamper := cs.Kind == "icmp-ws-tampering-transit" || cs.Kind == "icmp-socks-tampering-transit"
+	replay := cs.Kind == "icmp-ws-replaying-transit" || cs.Kind == "icmp-socks-replaying-transit"
 	if tamper {
 		c04TamperICMP(nt)
 	}
@@ -259,7 +299,7 @@ func c04ICMPRun(r *vmc.Result, cs c04ICMPCase) {
 	dest := net.IPv4(10, 9, 0, 1)
 	outcome := "ok"
 	switch cs.Kind {
-	case "icmp-ws", "icmp-ws-tampering-transit":
+	case "icmp-ws", "icmp-ws-tampering-transit", "icmp-ws-replaying-transit":
 		sess, err, ok := c04Async(x, func() (*health.ICMPSession, error) { return A.OpenICMPSession(ctx, nt.ids[last], dest) })
 		if !ok {
 			r.HarnessError("C04 %+v: OpenICMPSession did not return", cs)
@@ -284,11 +324,14 @@ func c04ICMPRun(r *vmc.Result, cs c04ICMPCase) {
 			ws.mu.RUnlock()
 		}
 		for k := 0; k < 2; k++ {
-			n0 := len(x.echoes) + x.undecr
+			n0, ne0 := len(x.echoes)+x.undecr, len(x.echoes)
 			sess.SendEcho <- &health.ICMPEchoRequest{Identifier: 7, Sequence: uint16(k), Payload: up}
 			if !nsWait(func() bool { x.pump(); return len(x.echoes)+x.undecr > n0 }) {
 				r.HarnessError("C04 %+v: echo %d never reached the exit", cs, k)
 				return
+			}
+			if len(x.echoes) == ne0 {
+				continue // the exit could not open this echo (reported below): there is no reply to wait for
 			}
 			var resp *health.ICMPEchoResponse
 			if !nsWait(func() bool {
@@ -306,10 +349,17 @@ func c04ICMPRun(r *vmc.Result, cs c04ICMPCase) {
 			if !tamper && (resp.Error != "" || !bytes.Equal(resp.Payload, down)) {
 				fail("bytes-differ", fmt.Sprintf("reply %d delivered to the WebSocket session differs from what the exit sent (error %q, %d bytes)", k, resp.Error, len(resp.Payload)))
 			}
+			if replay && k == 0 {
+				if !c04ReplayAck(nt, before) {
+					r.HarnessError("C04 %+v: no ICMP_OPEN_ACK to replay", cs)
+					return
+				}
+				x.pump()
+			}
 		}
 		sess.Close()
 		x.pump()
-	case "icmp-socks", "icmp-socks-tampering-transit":
+	case "icmp-socks", "icmp-socks-tampering-transit", "icmp-socks-replaying-transit":
 		sid, err, ok := c04Async(x, func() (uint64, error) { return A.CreateICMPSession(ctx, dest) })
 		if !ok {
 			r.HarnessError("C04 %+v: CreateICMPSession did not return", cs)
@@ -338,6 +388,13 @@ func c04ICMPRun(r *vmc.Result, cs c04ICMPCase) {
 				outcome = "refused"
 			}
 			x.pump()
+			if replay && k == 0 {
+				if !c04ReplayAck(nt, before) {
+					r.HarnessError("C04 %+v: no ICMP_OPEN_ACK to replay", cs)
+					return
+				}
+				x.pump()
+			}
 		}
 		A.CloseICMPSession(sid)
 		x.pump()
@@ -352,7 +409,7 @@ func c04ICMPRun(r *vmc.Result, cs c04ICMPCase) {
 			}
 		}
 	}
-	echoFrames := c04ICMPInspect(nt, before, last, key, haveKey, fail)
+	echoFrames := c04ICMPInspect(nt, before, last, key, haveKey, x, fail)
 	r.Add("evaluations", 1)
 	r.Add("data_frames_checked", int64(echoFrames))
 	if echoFrames > 0 || outcome == "refused" {
@@ -418,7 +475,7 @@ func c04SchedExec(r *vmc.Result, w *c04SchedWorld, cs c04ICMPCase, c *vmc.Choose
 	if out.Deadlock || out.Horizon || out.Panic != nil {
 		r.HarnessError("C04 icmp schedule %+v: deadlock=%v horizon=%v panic=%v", cs, out.Deadlock, out.Horizon, out.Panic)
 	}
-	echoFrames := c04ICMPInspect(nt, before, last, key, true, fail)
+	echoFrames := c04ICMPInspect(nt, before, last, key, true, nil, fail)
 	// leave the world clean for the next execution
 	for _, k := range nt.pending() {
 		nt.takeAll(k)
@@ -474,7 +531,7 @@ func c04ICMPAll(r *vmc.Result) {
 		sizes = []int{0, 1, 7, 8, 56, 1000, 1400, 1472}
 	}
 	for _, tr := range []int{1, 2} {
-		for _, kind := range []string{"icmp-ws", "icmp-socks", "icmp-ws-tampering-transit", "icmp-socks-tampering-transit"} {
+		for _, kind := range []string{"icmp-ws", "icmp-socks", "icmp-ws-tampering-transit", "icmp-socks-tampering-transit", "icmp-ws-replaying-transit", "icmp-socks-replaying-transit"} {
 			for _, sz := range sizes {
 				if r.Expired() {
 					return
